@@ -458,6 +458,9 @@ def normalize(img, scale_func=None, mode="all", error_on_divide_by_zero=True):
             "One or more the scale factors are 0.0 and thus these"
             "entries will be skipped during normalization."
         )
+        if mode == "all":
+            # a single (zero) scale factor - nothing can be normalized
+            return img.from_vector(centered_pixels)
         non_zero_denom = ~zero_denom
         centered_pixels[non_zero_denom] = (
             centered_pixels[non_zero_denom] / scale_factor[non_zero_denom]
